@@ -197,6 +197,10 @@ pub enum Case {
     S1 { comp: Comp, threads: u8, pattern: Pattern, ops: Vec<Vec<Op>>, plan_seed: u32, strength: u8 },
     /// ranges[r] = (begin, end) of reader r; schedule = interleaving of releases and starts
     S2 { chunks: u8, last_chunk_len: u16, ranges: Vec<(u32, u32)>, schedule: Vec<Step>, via_stream: bool },
+    /// the readers are tasks of a rayon thread pool (`pool_threads` 0: rayon's global pool), each
+    /// asking first for a cluster nobody has decoded yet: `tasks` readers over `pool_threads`
+    /// workers, all of which may be waiting for a background decoder at the same time
+    S3 { comp: Comp, pool_threads: u8, tasks: u8, seed: u32 },
 }
 
 pub struct C07;
@@ -495,7 +499,17 @@ impl Property for C07 {
     }
 
     fn strategy(_tier: Tier) -> BoxedStrategy<Case> {
-        (
+        let s3 = (real_comp_strategy(), prop_oneof![3 => 1u8..=6, 1 => Just(0u8)], 1u8..=40, any::<u32>()).prop_map(|(comp, pool_threads, tasks, seed)| Case::S3 {
+            comp: match comp {
+                Comp::Lz4(_) => Comp::Lz4(1),
+                Comp::Lzma(_) => Comp::Lzma(1),
+                _ => Comp::Zstd(1),
+            },
+            pool_threads,
+            tasks: if pool_threads == 0 { tasks.max(36) } else { tasks.max(pool_threads) },
+            seed,
+        });
+        let s1 = (
             real_comp_strategy(),
             prop_oneof![Just(2u8), Just(3u8), Just(4u8), Just(8u8), Just(16u8), 2u8..=16],
             prop_oneof![3 => Just(Pattern::Independent), 2 => Just(Pattern::Same), 2 => Just(Pattern::Sweep)],
@@ -519,8 +533,8 @@ impl Property for C07 {
                 ops,
                 plan_seed,
                 strength,
-            })
-            .boxed()
+            });
+        prop_oneof![5 => s1, 1 => s3].boxed()
     }
 
     fn fixed_cases(tier: Tier) -> Vec<Case> {
@@ -563,11 +577,15 @@ impl Property for C07 {
         for s in all_schedules(1, 3) {
             out.push(Case::S2 { chunks: 1, last_chunk_len: 100, ranges: vec![(0, 100), (99, 100), (0, 1)], schedule: s, via_stream: false });
         }
+        // readers that are rayon workers: as many and more readers than pool threads
+        for (k, (pool_threads, tasks)) in [(1u8, 3u8), (2, 2), (2, 9), (4, 16), (0, 40)].into_iter().enumerate() {
+            out.push(Case::S3 { comp: [Comp::Zstd(1), Comp::Lz4(1), Comp::Lzma(1)][k % 3], pool_threads, tasks, seed: 1000 + 77 * k as u32 });
+        }
         out
     }
 
     fn required_classes(_tier: Tier) -> Vec<&'static str> {
-        vec!["S1", "S2", "reader-waited-for-publication", "pattern:Sweep", "pattern:Same", "threads>=8", "comp:lz4", "comp:lzma", "comp:zstd", "comp:none", "touched>40-clusters"]
+        vec!["S1", "S2", "S3:readers-are-rayon-workers", "S3:own-pool", "reader-waited-for-publication", "pattern:Sweep", "pattern:Same", "threads>=8", "comp:lz4", "comp:lzma", "comp:zstd", "comp:none", "touched>40-clusters"]
     }
 
     fn max_shrink_iters() -> u32 {
@@ -582,6 +600,40 @@ impl Property for C07 {
                 run_s2(*chunks, *last_chunk_len, ranges, schedule, *via_stream, &mut info)?;
                 info.nontrivial = info.classes.iter().any(|c| c == "reader-waited-for-publication");
                 info.key = hash_str(&format!("{chunks}|{ranges:?}|{schedule:?}|{via_stream}"));
+                Ok(info)
+            }
+            Case::S3 { comp, pool_threads, tasks, seed } => {
+                use rayon::prelude::*;
+                info.class("S3:readers-are-rayon-workers");
+                info.class(if *pool_threads == 0 { "S3:global-pool" } else { "S3:own-pool" });
+                let nclusters = 48 + (*seed % 9);
+                let sp = s1_pack(ctx, *comp, nclusters)?;
+                let reader: jbk::Reader = jbk::FileSource::open(&sp.path).unwrap().into();
+                let pack = match jbk::reader::ContentPack::new(reader) {
+                    Ok(p) => Arc::new(p),
+                    Err(e) => fail!("open-error", "{e}"),
+                };
+                let first = *seed % nclusters;
+                let ntasks = *tasks as u32;
+                let work = || -> Result<(), Failure> {
+                    // no timeout here on purpose: readers that never return are decided by the engine's
+                    // blocked-forever criterion (every thread asleep without a timeout, no cpu used)
+                    (0..ntasks).into_par_iter().try_for_each(|t| {
+                        let cl = (first + t) % nclusters;
+                        let blob = (*seed >> 8).wrapping_add(t * 977) % BLOBS_PER_CLUSTER;
+                        do_read(&pack, cl * BLOBS_PER_CLUSTER + blob, &ReadKind::Whole)?;
+                        do_read(&pack, cl * BLOBS_PER_CLUSTER + (blob + 1) % BLOBS_PER_CLUSTER, &ReadKind::Slice { off: 3, len: 9 })
+                    })
+                };
+                if *pool_threads == 0 {
+                    work()?;
+                } else {
+                    let pool = rayon::ThreadPoolBuilder::new().num_threads(*pool_threads as usize).build().map_err(|e| Failure::new("harness-error", format!("rayon pool: {e}")))?;
+                    pool.install(work)?;
+                }
+                info.evals = 2 * ntasks as u64;
+                info.nontrivial = ntasks >= (*pool_threads).max(1) as u32;
+                info.key = hash_str(&format!("S3|{comp:?}|{pool_threads}|{tasks}|{}", seed % 64));
                 Ok(info)
             }
             Case::S1 { comp, threads, pattern, ops, plan_seed, strength } => {
